@@ -293,7 +293,7 @@ fn check_subsystem_events(acc: &mut Acc) {
         let mut scn = Scenario::new("C20-notify", vec![CallerProg { ops: vec![], pipeline: false }]);
         scn.notify_names = vec![name];
         scn.notify_budget = 1;
-        let mut chooser = NameChooser { names: vec![format!("Notify({name})")], cursor: 0 };
+        let mut chooser = NameChooser { names: vec![format!("Notify({name})")], cursor: 0, repeats: 0 };
         let t = run_once(&scn, &mut chooser).unwrap_or_else(|e| machinery_error(&e));
         let got: Vec<String> = t.events.iter().map(|e| e.text.clone()).collect();
         if got != vec![format!("changed:{name}")] {
